@@ -55,6 +55,21 @@ impl El for crate::yelem::Yf {
         crate::yelem::Yf(<f64 as El>::poison())
     }
 }
+impl El for i64 {
+    fn from64(v: f64) -> i64 {
+        if v.is_nan() {
+            0
+        } else {
+            v.clamp(-1e9, 1e9) as i64
+        }
+    }
+    fn bits64(self) -> u64 {
+        (self as f64).to_bits()
+    }
+    fn poison() -> i64 {
+        -123_456_789_012
+    }
+}
 impl El for f32 {
     fn from64(v: f64) -> f32 {
         v as f32
@@ -552,6 +567,27 @@ pub trait SibEl: El {
 }
 
 impl SibEl for crate::yelem::Yf {
+    fn sib1<Sd, Sx, D>(_: ndarray::ArrayBase<Sd, D>, _: ndarray::ArrayBase<Sx, Ix1>) -> Option<SibFn>
+    where
+        Sd: Data<Elem = Self> + ndarray::RawDataClone + Send + Sync + 'static,
+        Sx: Data<Elem = Self> + ndarray::RawDataClone + Send + Sync + 'static,
+        D: Dimension + ndarray::RemoveAxis + Send + Sync + 'static,
+    {
+        None
+    }
+    fn sib2<Sd, Sx, Sy, D>(_: ndarray::ArrayBase<Sd, D>, _: ndarray::ArrayBase<Sx, Ix1>, _: ndarray::ArrayBase<Sy, Ix1>) -> Option<SibFn>
+    where
+        Sd: Data<Elem = Self> + ndarray::RawDataClone + Send + Sync + 'static,
+        Sx: Data<Elem = Self> + ndarray::RawDataClone + Send + Sync + 'static,
+        Sy: Data<Elem = Self> + ndarray::RawDataClone + Send + Sync + 'static,
+        D: Dimension + ndarray::RemoveAxis + Send + Sync + 'static,
+        D::Smaller: ndarray::RemoveAxis,
+    {
+        None
+    }
+}
+
+impl SibEl for i64 {
     fn sib1<Sd, Sx, D>(_: ndarray::ArrayBase<Sd, D>, _: ndarray::ArrayBase<Sx, Ix1>) -> Option<SibFn>
     where
         Sd: Data<Elem = Self> + ndarray::RawDataClone + Send + Sync + 'static,
@@ -1145,6 +1181,9 @@ pub fn build_slot(cfg: &SlotCfg) -> Result<Box<dyn Slot>, BuildFail> {
         }
         (Kind::Bilinear, Elem::Yf, DimTy::Ix2) => owned2!(cfg, crate::yelem::Yf, ndarray::Ix2, ndarray_interp::interp2d::Bilinear::new().extrapolate(e)),
         (Kind::Bilinear, Elem::Yf, DimTy::Ix3) => owned2!(cfg, crate::yelem::Yf, ndarray::Ix3, ndarray_interp::interp2d::Bilinear::new().extrapolate(e)),
+        (Kind::Linear, Elem::I64, DimTy::Ix1) => owned1!(cfg, i64, ndarray::Ix1, ndarray_interp::interp1d::Linear::new().extrapolate(e)),
+        (Kind::Linear, Elem::I64, DimTy::Ix2) => owned1!(cfg, i64, ndarray::Ix2, ndarray_interp::interp1d::Linear::new().extrapolate(e)),
+        (Kind::Bilinear, Elem::I64, DimTy::Ix2) => owned2!(cfg, i64, ndarray::Ix2, ndarray_interp::interp2d::Bilinear::new().extrapolate(e)),
         (Kind::Probe1, Elem::F64, DimTy::Ix4) => probe1_min_owned!(cfg, ndarray::Ix4),
         (Kind::Probe1, Elem::F64, DimTy::Ix5) => probe1_min_owned!(cfg, ndarray::Ix5),
         (Kind::Bilinear, Elem::F64, DimTy::Ix4) => owned2!(cfg, f64, ndarray::Ix4, ndarray_interp::interp2d::Bilinear::new().extrapolate(e)),
@@ -1175,6 +1214,8 @@ pub fn supported(kind: Kind, elem: Elem, storage: Storage, dimty: DimTy, _probe_
         (Kind::Linear, Elem::F32) => matches!(dimty, Ix1 | Ix2),
         (Kind::Bilinear, Elem::F64) | (Kind::Probe2, Elem::F64) => matches!(dimty, Ix2 | Ix3 | IxDyn) || (owned && dimty == Ix4),
         (Kind::Bilinear, Elem::F32) => matches!(dimty, Ix2),
+        (Kind::Linear, Elem::I64) => owned && matches!(dimty, Ix1 | Ix2),
+        (Kind::Bilinear, Elem::I64) => owned && dimty == Ix2,
         (Kind::Linear, Elem::Yf) => owned && matches!(dimty, Ix1 | Ix2 | IxDyn),
         (Kind::Spline, Elem::Yf) => owned && matches!(dimty, Ix1 | Ix2),
         (Kind::Bilinear, Elem::Yf) => owned && matches!(dimty, Ix2 | Ix3),
